@@ -221,7 +221,11 @@ def coq_obs(o, classes):
         return "OP"
     nums = (o.get("a") or []) + (o.get("h") or []) + (o.get("c") or []) + (o.get("b") or [])
     ids = []
-    for r in o.get("r") or []:
+    rs = o.get("r") or []
+    for i, r in enumerate(rs):
+        # the last root is the account trie's (RA in the model), the others are storage roots (RS):
+        # the empty tries of both kinds have the same (empty) root bytes
+        r = ("A" if i == len(rs) - 1 else "S") + r
         if r not in classes:
             classes[r] = len(classes)
         ids.append(classes[r])
@@ -273,7 +277,10 @@ def model_check(ctx, traces, results, tag, shard=400):
         m = re.search(r"M = (\[.*?\]|nil)\s*:", flat)
         if not m:
             return None, out[-3000:]
-        for a, b in re.findall(r"\((\d+)\s*,\s*(\d+)\)", m.group(1)):
+        found = re.findall(r"\((\d+)(?:%nat)?\s*,\s*(\d+)(?:%nat)?\)", m.group(1))
+        if not found and m.group(1) not in ("[]", "nil"):
+            return None, "could not parse the list of disagreeing traces: " + m.group(1)[:300]
+        for a, b in found:
             bad.append((s + int(a), int(b)))
     return bad, ""
 
@@ -381,6 +388,33 @@ def run(ctx):
                 pred_fail.append(("C12:reverted-write-leaks", "state root / persisted data differ between a run with reverted writes and the run without them",
                                   {"ops_with_reverted": full, "ops_without": erased,
                                    "final_with": visible(of[-1]), "final_without": visible(oe[-1])}))
+        # (3) reads return the latest non-reverted write: plain accounts a0, a1 against an explicit
+        #     stack of frames (never opened as contracts, so Update does not touch them)
+        vis, frames = {}, []
+        for si, op in enumerate(full):
+            if si >= len(of) or of[si].get("p"):
+                break
+            if op[0] == "put":
+                vis[op[1]] = op[2]
+            elif op[0] == "snap":
+                frames.append(dict(vis))
+            elif op[0] == "rb":
+                vis = dict(frames[op[1]])
+            elif op[0] == "reopen":
+                frames = []
+            sec, pos, seen_acc = of[si].get("a") or [], 0, {}
+            for ai in range(len(UA)):
+                if sec[pos] == 0:
+                    pos += 1
+                else:
+                    seen_acc[ai] = sec[pos + 1]
+                    pos += 2
+            bad_acc = [ai for ai in (0, 1) if seen_acc.get(ai) != vis.get(ai)]
+            if bad_acc:
+                pred_fail.append(("C12:stale-read", "an account read does not return the latest non-reverted PutState",
+                                  {"ops": full[: si + 1], "account": UA[bad_acc[0]], "read": seen_acc.get(bad_acc[0]),
+                                   "expected": vis.get(bad_acc[0])}))
+                break
         if any(o.get("p") for o in of):
             pred_fail.append(("C12:panic", "panic (or out-of-contract call) in a disciplined trace",
                               {"ops": full[: len(of)]}))
